@@ -639,6 +639,16 @@ CORPUS = [
     dict(kind="dp", fn="dpois", fam="pois", x=790, params=dict(mu=800.0), flags=dict(log=True)),
     dict(kind="dp", fn="dbinom", fam="binom", x=1010, params=dict(size=2000, prob=0.5), flags=dict(log=False)),
     dict(kind="dp", fn="dgamma", fam="gamma", x=148.0, params=dict(shape=300.0, rate=2.0), flags=dict(log=True)),
+    # far tails in log form: the plain value underflows to 0 there, the log density / log cdf is finite
+    dict(kind="dp", fn="dnorm", fam="norm", x=41.0, params=dict(mean=1.0, sd=1.0), flags=dict(log=True)),
+    dict(kind="dp", fn="pnorm", fam="norm", x=-40.0, params=dict(mean=0.5, sd=1.0), flags=dict(log=True)),
+    dict(kind="dp", fn="dexp", fam="exp", x=400.0, params=dict(rate=2.5), flags=dict(log=True)),
+    dict(kind="dp", fn="dgamma", fam="gamma", x=900.0, params=dict(shape=2.5, rate=1.5), flags=dict(log=True)),
+    dict(kind="dp", fn="dchisq", fam="chisq", x=1800.0, params=dict(df=3.0), flags=dict(log=True)),
+    dict(kind="dp", fn="dbeta", fam="beta", x=0.001, params=dict(shape1=250.0, shape2=3.0), flags=dict(log=True)),
+    dict(kind="dp", fn="pexp", fam="exp", x=1e-20, params=dict(rate=2.5), flags=dict(log=True)),
+    dict(kind="dp", fn="dpois", fam="pois", x=400, params=dict(mu=2.5), flags=dict(log=True)),
+    dict(kind="dp", fn="dbinom", fam="binom", x=1990, params=dict(size=2000, prob=0.25), flags=dict(log=True)),
 ]
 
 
@@ -681,6 +691,18 @@ def gen_inputs(rng, ndp, nq, nseed, ndist):
                     out.append(dict(base, flags=dict(lower_tail=False)))
                     if fam == "nbinom":
                         out.append(dict(base, flags=dict(log=True)))
+    for _ in range(max(2, ndp // 4)):                 # far tails, log form (the plain value underflows there)
+        P = gen_params("norm", rng)
+        z = float(rng.uniform(39.0, 60.0))
+        out.append(dict(kind="dp", fn="dnorm", fam="norm", x=P["mean"] + [-z, z][int(rng.integers(0, 2))] * P["sd"], params=P,
+                        flags=dict(log=True)))
+        out.append(dict(kind="dp", fn="pnorm", fam="norm", x=P["mean"] - z * P["sd"], params=P, flags=dict(log=True)))
+        P = gen_params("exp", rng)
+        out.append(dict(kind="dp", fn="dexp", fam="exp", x=float(rng.uniform(760.0, 3000.0)) / P["rate"], params=P,
+                        flags=dict(log=True)))
+        P = gen_params("gamma", rng)
+        out.append(dict(kind="dp", fn="dgamma", fam="gamma", x=float(rng.uniform(900.0, 3000.0)) / P["rate"], params=P,
+                        flags=dict(log=True)))
     for fam in RDEF:                                  # parameters left to their defaults
         for _ in range(max(2, ndp // 4)):
             keep = {k: v for k, v in gen_params(fam, rng).items() if k not in RDEF[fam]}
